@@ -235,6 +235,7 @@ var opNames = []string{"ExecutionAllowed/hook-adds-key", "ExecutionAllowed/hook-
 	"inv.accessors", "args.Iter", "args.String", "args.ToIPLD", "args.Equals", "args.GetNode", "args.WriteableClone",
 	"meta.Iter", "meta.String", "meta.Get", "meta.GetEncrypted", "meta.GetEncrypted", "meta.GetBytes", "dlg.Meta.GetEncrypted", "inv.IsValid",
 	"dlg.ToSealed", "dlg.ToDagJson", "dlg.accessors", "dlg.Policy.String", "dlg.Policy.Match", "dlg.Meta.String", "dlg.IsValid", "dlg.IsValidAt/what-if", "dlg.IsValidAt/what-if", "inv.IsValidAt/what-if", "args.Equals/other-order", "args.Equals/other-order", "meta.Equals/other-order",
+	"args.Iter/same-sequence-again", "meta.Iter/same-sequence-again", "dlg.Meta.Iter/same-sequence-again",
 	"inv.ToSealed/caller-overwrites-result", "inv.ToDagCbor/caller-overwrites-result", "inv.ToDagJson/caller-overwrites-result", "dlg.ToSealed/caller-overwrites-result", "dlg.ToDagCbor/caller-overwrites-result", "dlg.ToDagJson/caller-overwrites-result"}
 
 // whatIfInstants: instants a caller may ask about that are NOT now (planning, auditing, pruning): the answers are
@@ -435,6 +436,47 @@ func (w *world) apply(op string, which int, k *keeper) (res string) {
 			sb.WriteString(k + "=" + val.FromNode(n).String() + ";")
 		}
 		return sb.String()
+	case "args.Iter/same-sequence-again", "meta.Iter/same-sequence-again", "dlg.Meta.Iter/same-sequence-again":
+		// ONE iterator value (an iter.Seq2 is a value a caller may keep, pass on and range over more than once):
+		// ranged in full, ranged up to its second entry, ranged in full again, and by two goroutines at once - every
+		// full pass yields what the first did
+		var seq func(func(string, ipld.Node) bool)
+		switch op {
+		case "args.Iter/same-sequence-again":
+			seq = w.inv.Arguments().Iter()
+		case "meta.Iter/same-sequence-again":
+			seq = w.inv.Meta().Iter()
+		default:
+			if d == nil {
+				return "no-delegation"
+			}
+			seq = d.Meta().Iter()
+		}
+		pass := func(limit int) string {
+			var sb strings.Builder
+			i := 0
+			for k, n := range seq {
+				sb.WriteString(k + "=" + val.FromNode(n).String() + ";")
+				i++
+				if limit > 0 && i >= limit {
+					break
+				}
+			}
+			return sb.String()
+		}
+		first := pass(0)
+		_ = pass(2)
+		again := pass(0)
+		var c1, c2 string
+		var wg sync.WaitGroup
+		wg.Add(2)
+		go func() { defer wg.Done(); c1 = pass(0) }()
+		go func() { defer wg.Done(); c2 = pass(0) }()
+		wg.Wait()
+		if again != first || c1 != first || c2 != first {
+			return fmt.Sprintf("passes over one iterator value differ: first %q | after a partial pass %q | concurrent %q / %q", first, again, c1, c2)
+		}
+		return "same:" + first
 	case "args.String":
 		return w.inv.Arguments().String()
 	case "args.ToIPLD":
@@ -767,6 +809,10 @@ func runSeq(c *h.Ctx, sc SeqCase) {
 	kp := &keeper{}
 	for i, st := range sc.Hist {
 		r1 := w.apply(st.Op, st.Which, kp)
+		if strings.HasPrefix(r1, "passes over one iterator value differ") {
+			c.Fail("C20/iterator-not-repeatable/"+st.Op, "operation %d (%s): %s", i, st.Op, r1)
+			return
+		}
 		if ch := kp.changed(); ch != "" {
 			c.Fail("C20/returned-value-changed-by/"+st.Op, "a byte slice returned by an earlier operation changed when operation %d (%s) ran:\n%s", i, st.Op, ch)
 			return
